@@ -23,6 +23,7 @@ From PV Require Import Num NumR model.Geom proofs.LatticeFacts proofs.SiteFacts 
 From PV Require Import gen.GenFns proofs.SourceFacts.
 From PV Require Import proofs.SourceCorollaries.
 From PV Require Import model.Iter proofs.SearchFacts.
+From PV Require Import gen.GenFns proofs.SourceFacts proofs.SearchFacts.
 
 Theorem C01_scored_disc_packing_has_no_overlap :
   forall (st : pstateR) (l : list discR), wf_state st -> rigid_inputs st -> p_shape NumR st =
@@ -311,4 +312,30 @@ Theorem S_from_radial_is_source :
     points))).
 Proof. exact from_radial_is_source. Qed.
 Print Assumptions S_from_radial_is_source.
+
+
+Theorem S_shape_intersects_is_source :
+  forall (NN : Num) (l m : list (seg NN)) (a b : list (disc NN)), gen_poly_intersects NN l m =
+    shape_intersects NN (Poly l) (Poly m) /\ gen_mol_intersects NN a b = shape_intersects NN
+    (Mol a) (Mol b).
+Proof. exact shape_intersects_is_source. Qed.
+Print Assumptions S_shape_intersects_is_source.
+
+Theorem S_enclosing_radius_is_source :
+  forall (NN : Num) (fmin_ : carrier NN) (l : list (seg NN)) (m : list (disc NN)),
+    gen_poly_radius NN fmin_ l = poly_radius NN fmin_ l /\ gen_mol_radius NN fmin_ m =
+    mol_radius NN fmin_ m.
+Proof. exact enclosing_radius_is_source. Qed.
+Print Assumptions S_enclosing_radius_is_source.
+
+Theorem S_state_positions_are_source :
+  forall (NN : Num) (st : pstate NN), gen_relative_positions NN st = relative_positions NN st /\
+    gen_cartesian_positions NN st = cartesian_positions NN st.
+Proof. exact state_positions_are_source. Qed.
+Print Assumptions S_state_positions_are_source.
+
+Theorem S_total_shapes_is_source :
+  forall (NN : Num) (st : pstate NN), Z.of_N (gen_total_shapes NN st) = total_shapes NN st.
+Proof. exact total_shapes_is_source. Qed.
+Print Assumptions S_total_shapes_is_source.
 
